@@ -157,12 +157,16 @@ class Parser:
                     # sure not to test the token as a context flag if we've
                     # passed into 'storing unknown stuff' territory (e.g. on a
                     # core-args pass, handling what are going to be task args)
-                    have_flag = (
-                        machine.context is not None
-                        and token in machine.context.flags
-                        and machine.current_state != "unknown"
-                    )
-                    if have_flag and machine.context.flags[token].takes_value:
+                    # (Look the flag up the way handle() will: the current
+                    # context first, then the initial/core one - core flags
+                    # may be given inside a task's arguments too.)
+                    flag_arg = None
+                    if machine.current_state != "unknown":
+                        for ctx in (machine.context, machine.initial):
+                            if ctx is not None and token in ctx.flags:
+                                flag_arg = ctx.flags[token]
+                                break
+                    if flag_arg is not None and flag_arg.takes_value:
                         msg = "{!r} is a flag for current context & it takes a value, giving it {!r}"  # noqa
                         debug(msg.format(token, rest))
                         mutations.append((index + 1, rest))
